@@ -111,11 +111,33 @@ def eval_c(text, cond):
     return float(ceval.value(ceval.parse_expr(text), env))
 
 
+def rate12_table():
+    """the RATE12 binding-energy list read independently of naunet: first column exact species name, second column the value"""
+    import naunet.chemistrydata as cd, os
+    out = {}
+    for line in open(os.path.join(os.path.dirname(cd.__file__), "rate12_binding_energy.dat"), errors="replace"):
+        if line.startswith("#") or not line.strip():
+            continue
+        parts = line.split()
+        out[parts[0]] = float(parts[1])
+    return out
+
+
 def oracle(tier, seed):
     from . import grain_rates as G
     from . import native_net as N
     from naunet import chemistrydata
     viol, cases, samples = [], 0, []
+    T12 = rate12_table()
+    # the table the tool works with must be the published list, name by name (an ion never shadows its neutral)
+    for nm, val in T12.items():
+        cases += 1
+        got = chemistrydata.rate12_binding_energy.get(nm)
+        if got != val:
+            viol.append({"property": "C11", "case": "rate12-table", "stage": "table", "what": f"binding-energy-table: {nm} is {got} in the tool's table, {val} in the RATE12 list",
+                         "signature": f"C11:rate12-table:{nm}"})
+            if len(viol) > 5:
+                break
     alphas = [1.0, 0.5] if tier == "quick" else [1.0, 0.5, 2.5e3, 1e-3]
 
     def V(label, what, stage):
@@ -161,7 +183,7 @@ def oracle(tier, seed):
                     for k, s in enumerate(sps[:2]):
                         syms[f"A{k + 1}"] = s.massnumber
                         if s.is_surface:
-                            eb = override[s.name] if override else (chemistrydata.user_binding_energy.get(s.name) or chemistrydata.rate12_binding_energy.get(s.gasname))
+                            eb = override[s.name] if override else T12.get(s.name[1:] if s.name[:1] in "#G" else s.name)
                             syms[f"Eb{k + 1}"] = eb
                             cond["eb_" + s.alias] = eb
                     syms.setdefault("Eb1", 1.0), syms.setdefault("Eb2", 1.0), syms.setdefault("A2", 1.0)
